@@ -48,6 +48,7 @@ def check(R, tier):
     R.bounds.update({'history': 'clean cycle, then a cycle with a fault or death possible at every datastore call, then a clean cycle', 'root hops per cycle': 1,
                      'faults': 'each open/write/rename/unlink may fail (ENOSPC/EIO) leaving what was done so far; the process may die after each step (write = open+truncate, then write)'})
     R.assumptions += ['a created or truncated file that was not completely written does not parse', 'rename(2) is atomic', 'clock disabled (C04); V = W(KS, Thr, doc)']
+    cycle_composition(R, I)
     sums_clean = build_summaries(I, hops=1); R.check_interp_clean(I, 'clean summaries')
     sums_fault = build_summaries(I, hops=1, io_faults='crash'); R.check_interp_clean(I, 'fault summaries')
     if len(sums_clean[0].P.ds) != len(sums_fault[0].P.ds):
@@ -72,6 +73,7 @@ def check(R, tier):
     R.reach('cycle 3 accepted after an interrupted cycle 2', f + [c1.ok, z3.Not(c2.ok), c3.ok])
     R.reach('cycle 3 rejects a replayed older timestamp after an interrupted cycle 2', f + [c1.ok, z3.Not(c2.ok), c3.older_ts])
     finalize(R, sums_clean, sums_fault)
+    replay_composition(R)
 
 def damage_ops(m, c1, c2):
     """datastore differences the interrupted cycle left behind, as native pre-operations for the next cycle"""
@@ -85,7 +87,8 @@ def damage_ops(m, c1, c2):
 
 def finalize(R, sums_clean, sums_fault):
     groups = {}
-    for cx in R.counterexamples: groups.setdefault(cx['group'], cx)
+    for cx in R.counterexamples:
+        if not cx['group'].startswith('composition/'): groups.setdefault(cx['group'], cx)
     for g, cx in groups.items():
         shipped, cyc, f = build(sums_clean, sums_fault, 'w')
         c1, c2, c3 = cyc
